@@ -61,7 +61,7 @@ CHECKS.update({
         "technique": "Kani/CBMC bounded model checking against a two-piece definitional oracle (cofactor lemma + classification)",
     },
     "C09": {
-        "text": "Bounded model checking of from_hex_string over strings whose every byte is symbolic: exactly-width ASCII strings (n=0..6 quick, n=7 thorough) are Ok iff all bytes are hex digits and the value fits, with exactly the denoted well-formed table; every other length 0..=width+2 is Err; a 2-byte UTF-8 character at a symbolic position (also straddling the 16-digit chunk boundary) is Err without panic. Printing is weaker (core::fmt cost): to_hex_string length and digit at a symbolic position for n<=2 quick (n<=5 thorough, capped), to_bin_string and parse(print(f)) only in thorough under caps. Display/LowerHex/Binary wrappers and printing for n>=6 are outside the claim.",
+        "text": "Bounded model checking of from_hex_string over strings whose every byte is symbolic: exactly-width ASCII strings (n=0..6 quick, n=7 thorough) are Ok iff all bytes are hex digits and the value fits, with exactly the denoted well-formed table; every other length 0..=width+2 is Err; a 2-byte UTF-8 character at a symbolic position (also straddling the 16-digit chunk boundary) is Err without panic. Printing is weaker (core::fmt cost): to_hex_string length and digit at a symbolic position for n<=2 quick (n<=5 thorough, n>=4 under caps). to_bin_string, the explicit parse(print(f)) round trip, the Display/LowerHex/Binary wrappers and all printing for n>=6 (including the word order of multi-word tables) are outside the claim: measured out of memory even at n=0..1 / with words restricted to < 16.",
         "design_ref": "DESIGN.md section 5 / C09",
         "technique": "Kani/CBMC bounded model checking with fully symbolic input bytes (parser) and symbolic digit position (printer)",
     },
